@@ -146,6 +146,19 @@ Theorem C12_encoding_error : forall mf env n job i o ptb ptext ok p r,
 Proof. exact encoding_error_path. Qed.
 Print Assumptions C12_encoding_error.
 
+(* what the parent then reads: still a MaybeEncodingError record with that tb and text; the
+   args are the worker's only if MaybeEncodingError pickles faithfully (switch on) *)
+Theorem C12_encoding_error_as_received : forall fx mf r p ptb ptext e2,
+    encoding_record mf r p ptb ptext = Some e2 ->
+    exists e', roundtrip_gen fx e2 = Some e' /\
+               ei_type e' = CMee /\ x_cls (exc_of (ei_exc e')) = CMee /\
+               x_args (exc_of (ei_exc e')) =
+               (if fx then [AStr r; AStr (repr (payload_obj p))]
+                else [AStr (repr_str r); AStr (repr_str (repr (payload_obj p)))]) /\
+               ei_tb e' = ei_tb e2 /\ ei_text e' = ei_text e2.
+Proof. exact encoding_record_received. Qed.
+Print Assumptions C12_encoding_error_as_received.
+
 Theorem C12_loop_continues : forall mf env mt job i o ptb ptext rest c n ms n',
     loop_guard mt c = true ->
     handle_task mf env n job i o ptb ptext = (ms, inr n') ->
